@@ -282,7 +282,8 @@ def quirkList : List (String × Quirks) :=
     ("optimistic-types", { Quirks.real with optimisticTypes := false }),
     ("rev-range-wrap", { Quirks.real with revRangeWrap := false }),
     ("pp-if-32bit", { Quirks.real with ppIf32 := false }),
-    ("lv-range-const-rev", { Quirks.real with lvRangeConstRev := false }) ]
+    ("lv-range-const-rev", { Quirks.real with lvRangeConstRev := false }),
+    ("zero-minus-neg", { Quirks.real with zeroMinusNeg := false }) ]
 
 def clip (s : String) : String := if s.length > 160 then (s.take 160).toString ++ "..." else s
 
